@@ -1,5 +1,6 @@
 import PMV.Sexp
 import PMV.Driver.Cli
+import PMV.Driver.Printer
 open PMV
 
 def dispatch (cmd : String) (args : List Sexp) : Option String :=
@@ -9,6 +10,8 @@ def dispatch (cmd : String) (args : List Sexp) : Option String :=
   | "cli.kw" => Driver.Cli.kw args
   | "cli.split" => Driver.Cli.split args
   | "cli.violations" => Driver.Cli.violations args
+  | "unparse" => Driver.Printer.unparse args
+  | "unparse.expr" => Driver.Printer.unparseExpr args
   | _ => none
 
 def handle (line : String) : String :=
